@@ -3,7 +3,7 @@ import re
 
 from ..facts import AnchorMissing, callee_def, op_place, op_const, is_bare
 from ..util import (ends, site, fn_key, callee_method, require, has_call, has_field, find_dispatch, edge_is_true,
-                    direct_place, edges_where, unreachable_without_edges, transitive_closures)
+                    direct_place, edges_where, unreachable_without_edges, transitive_closures, reach_with_bool_consts)
 from ..widths import norm
 
 EXPLANATION = (
@@ -173,7 +173,7 @@ def rule_a(ctx):
                     okn = "?" not in forms and any("arg2" in f for f in forms) and any("$0" in f and "arg2" not in f for f in forms) and len(forms) == 2
                 want = "each proper ancestor in turn (parent of the node, then parent of that)"
             ctx.check(okn, "C20-A", "%s:node#%d" % (vn, n), t["span"], b.id, "continues on %s; expected %s" % (a1, want))
-    ctx.floor("C20-A", "continuations of do_matches", n, 8)
+    ctx.floor("C20-A", "continuations of do_matches", n, 7)
     # the empty remainder matches
     okc = False
     for a in b.reachable():
@@ -274,6 +274,12 @@ def rule_b(ctx):
                     vals = sorted(v for v, tb2 in b.term(a)["targets"] if tb2 in via)
                     if vals == [ev] and b.term(a)["otherwise"] not in via:
                         under = True
+                    else:
+                        # `let hit = match node.data { Element{..} => .., _ => false }; hit && do_matches(..)`: the other
+                        # kinds assign a constant `false` that decides the later test
+                        others = [s2 for s2 in b.succ(a) if s2 not in [tb2 for v, tb2 in b.term(a)["targets"] if v == ev] and not b.is_cleanup(s2)]
+                        if others and all(x not in reach_with_bool_consts(b, s2) for s2 in others):
+                            under = True
             ctx.check(under, "C20-B", "%s:only-element-nodes" % vn, t["span"], b.id,
                       "a %s step can match a node that is not an element" % vn)
 
